@@ -244,6 +244,8 @@ class Ctx:
             r.depth = int(m.group(1))
         if "Model checking completed. No error has been found." in out:
             r.ok = True
+        if r.rc == 0 and "The number of states generated:" in out and "Error:" not in out:
+            r.ok = True          # simulation mode finished its quota
         m = re.search(r"Error: Invariant (\S+) is violated", out)
         if m:
             r.violated = m.group(1)
